@@ -107,6 +107,10 @@ pub fn evaluate(p: &dyn Profile, reg: &Reg, plan: Plan, rec: &RunRecord) -> RunO
             vec![]
         }
     };
+    cells.hit(format!("world.prefix|{}", plan.prefix));
+    if plan.ops.len() >= 100 {
+        cells.hit("world.long_history");
+    }
     let (armed, collateral): (Vec<_>, Vec<_>) =
         findings.into_iter().partition(|f| f.property == p.property());
     let mut txs = 0;
